@@ -178,11 +178,16 @@ Theorem c07_cost_linear_jsonplus_split : forall data at_eof, CJson.cost_split da
 Proof. exact PJson.cost_split_linear. Qed.
 (* ... but every token re-scans the window: a document held in one window costs at most
    (tokens + 1) * (5 * window + 6); with the whole document as the window this is quadratic, and
-   that quadratic growth is attained (c07_jsonplus_window_rescan_refuted when present).  The real
+   that quadratic growth is attained (c07_jsonplus_window_rescan_refuted below).  The real
    scanner's window is its buffer (4096 bytes, doubled only for a single token that does not fit),
    so the reader is linear in the input with a constant proportional to max(4096, 2 * longest token). *)
 Theorem c07_cost_jsonplus_strip_window : forall d, CJson.cost_strip d <= (lenN d + 2) * (5 * lenN d + 6).
 Proof. exact PJson.cost_strip_bound. Qed.
+(* the per-token rescan is attained: with the whole document as the window no linear bound holds
+   (family: m line comments, cost >= 3m(m+1)/2 on 3m bytes -- the apostrophe marker is searched
+   through the whole remaining window for every token) *)
+Theorem c07_jsonplus_window_rescan_refuted : forall k : N, exists d, wf_bytes d /\ CJson.cost_strip d > k * lenN d.
+Proof. exact PJson.cost_strip_quadratic_refuted. Qed.
 Close Scope N_scope.
 
 (* ------------------------------------------------------------------------------------------
@@ -341,7 +346,7 @@ Proof. exact Verif.Proofs.Amf0Cost.amf0_cost_quadratic_refuted. Qed.
 
 (* Assumptions of EVERY theorem above, in one traversal: the tuple below mentions each of them, so the set
    printed is the union of their assumptions (one `Print Assumptions` per theorem costs 0.4 s each -- 20 s per
-   check run for this file -- and prints the same line 74 times). *)
+   check run for this file -- and prints the same line 75 times). *)
 Definition c07_all_theorems :=
   (c07_amf0_marker_String_total,
   (c07_amf0_Discovery_total,
@@ -391,6 +396,7 @@ Definition c07_all_theorems :=
   (c07_cost_linear_rtmp_read_message,
   (c07_cost_linear_jsonplus_split,
   (c07_cost_jsonplus_strip_window,
+  (c07_jsonplus_window_rescan_refuted,
   (c07_amf0_dec_total,
   (c07_rtmp_read_total,
   (c07_rtmp_decode_message_total,
@@ -416,5 +422,5 @@ Definition c07_all_theorems :=
   (c07_amf0_dec_returns,
   (c07_avc_sample_returns,
   (c07_flv_tags_return,
-  c07_amf0_cost_refuted))))))))))))))))))))))))))))))))))))))))))))))))))))))))))))))))))))))))).
+  c07_amf0_cost_refuted)))))))))))))))))))))))))))))))))))))))))))))))))))))))))))))))))))))))))).
 Print Assumptions c07_all_theorems.
